@@ -2,14 +2,15 @@
     statements closed by [exact] and [Print Assumptions].  All statements are
     about the exact-rational instance [Qops] of the generic policy code of
     C10/Model.v (the binary64 instance [Fops] of the same code is what the
-    correspondence compares with /repo off the dyadic grid). *)
-From HS Require Import Base.Prelude C10.Model C10.QFacts C10.TokenBucket.
+    correspondence compares with /repo off the dyadic grid).  Times are ns. *)
+From HS Require Import Base.Prelude C10.Model C10.QFacts C10.TokenBucket C10.Leaky C10.Sliding C10.Fixed C10.Adaptive.
 From Coq Require Import QArith.
 Local Open Scope Q_scope.
 
-(** Token bucket never over-admits: in any stretch [mid] of any run with
-    non-decreasing times, granted <= B + rate * (last - first) for every
-    B >= capacity and >= initial tokens (B = capacity for the default bucket). *)
+(* ------------------------------------------------------------------ token bucket *)
+(** Never over-admits: in any stretch [mid] of any run with non-decreasing times,
+    granted <= B + rate * (last - first) for every B >= capacity and >= initial
+    tokens (B = capacity for the default bucket). *)
 Theorem c10_token_bucket_bound : forall p : tbp Qops, 0 < tb_rate p -> 0 <= tb_cap p ->
   forall init pre mid B, 0 <= init -> init <= B -> tb_cap p <= B -> sorted (pre ++ mid) ->
   let s0 := Build_tbs Qops init None in
@@ -43,3 +44,134 @@ Theorem c10_token_bucket_progress : forall p : tbp Qops, 0 < tb_rate p -> 0 <= t
   w3 = 0%Z /\ (0 <= w1)%Z /\ (0 <= w2)%Z.
 Proof. exact tb_tua_progress. Qed.
 Print Assumptions c10_token_bucket_progress.
+
+(* ------------------------------------------------------------------ leaky bucket *)
+(** Consecutive granted acquires are at least 1/rate seconds apart, in every run from every state. *)
+Theorem c10_leaky_spacing : forall rate ops s,
+  spaced_from (lk_interval Qops rate) s (run_times (lk_step Qops (lk_interval Qops rate)) s ops).
+Proof. intros rate. exact (lk_spacing (lk_interval Qops rate)). Qed.
+Print Assumptions c10_leaky_spacing.
+
+Theorem c10_leaky_tua_zero : forall rate s now,
+  lk_tua Qops (lk_interval Qops rate) s now = 0%Z -> snd (lk_acquire Qops (lk_interval Qops rate) s now) = true.
+Proof. intros rate. exact (lk_tua_zero_acquires (lk_interval Qops rate)). Qed.
+Print Assumptions c10_leaky_tua_zero.
+
+Theorem c10_leaky_tua_blocks : forall rate s now ops,
+  (0 < lk_tua Qops (lk_interval Qops rate) s now)%Z ->
+  Forall (fun o => (time_of o < now + lk_tua Qops (lk_interval Qops rate) s now)%Z) ops ->
+  snd (run_count granted (lk_step Qops (lk_interval Qops rate)) s ops) = 0%Z.
+Proof. intros rate. exact (lk_tua_positive_blocks (lk_interval Qops rate)). Qed.
+Print Assumptions c10_leaky_tua_blocks.
+
+Theorem c10_leaky_progress : forall rate s now,
+  let iv := lk_interval Qops rate in
+  let w1 := lk_tua Qops iv s now in
+  let w2 := lk_tua Qops iv s (now + w1) in
+  let w3 := lk_tua Qops iv s (now + w1 + w2) in
+  w3 = 0%Z /\ (0 <= w1)%Z /\ (0 <= w2)%Z.
+Proof. intros rate. exact (lk_tua_progress (lk_interval Qops rate)). Qed.
+Print Assumptions c10_leaky_progress.
+
+(* ------------------------------------------------------------------ sliding window *)
+(** Every grant at time t sees fewer than N earlier grants in [t - w, t]: at most N in any window. *)
+Theorem c10_sliding_window_bound : forall wn n ops, sorted ops ->
+  windows_ok wn n [] (run_times (sw_step Qops wn n) [] ops).
+Proof. exact sw_never_over_admits. Qed.
+Print Assumptions c10_sliding_window_bound.
+
+Theorem c10_sliding_tua_zero : forall wn n log now log1,
+  sw_tua Qops wn n log now = (log1, 0%Z) ->
+  snd (sw_acquire wn n log now) = true /\ snd (sw_acquire wn n log1 now) = true.
+Proof. exact sw_tua_zero_acquires. Qed.
+Print Assumptions c10_sliding_tua_zero.
+
+Theorem c10_sliding_tua_blocks : forall wn n log now log1 w ops,
+  sw_tua Qops wn n log now = (log1, w) -> (0 < w)%Z ->
+  Forall (fun o => (time_of o < now + w)%Z) ops ->
+  snd (run_count granted (sw_step Qops wn n) log1 ops) = 0%Z.
+Proof. exact sw_tua_positive_blocks. Qed.
+Print Assumptions c10_sliding_tua_blocks.
+
+Theorem c10_sliding_progress : forall wn n, (1 <= n)%Z -> forall log now, (Z.of_nat (length log) <= n)%Z ->
+  let '(l1, w1) := sw_tua Qops wn n log now in
+  let '(l2, w2) := sw_tua Qops wn n l1 (now + w1) in
+  let '(l3, w3) := sw_tua Qops wn n l2 (now + w1 + w2) in
+  w3 = 0%Z /\ (0 <= w1)%Z /\ (0 <= w2)%Z.
+Proof. exact sw_tua_progress. Qed.
+Print Assumptions c10_sliding_progress.
+
+(* ------------------------------------------------------------------ fixed window (repaired code) *)
+Theorem c10_fixed_window_aligned_bound : forall wn n, (1 <= wn)%Z -> (0 <= n)%Z -> forall ops k, sorted ops ->
+  (Z.of_nat (length (filter (inw wn k) (run_times (fw_step Qops wn n) {| fw_start := None; fw_count := 0 |} ops))) <= n)%Z.
+Proof. exact fw_aligned_bound. Qed.
+Print Assumptions c10_fixed_window_aligned_bound.
+
+Theorem c10_fixed_window_2n_bound : forall wn n, (1 <= wn)%Z -> (0 <= n)%Z -> forall ops a, sorted ops ->
+  (Z.of_nat (length (filter (fun t => (a <=? t)%Z && (t <=? a + wn)%Z)
+     (run_times (fw_step Qops wn n) {| fw_start := None; fw_count := 0 |} ops))) <= 2 * n)%Z.
+Proof. exact fw_any_interval_bound. Qed.
+Print Assumptions c10_fixed_window_2n_bound.
+
+Theorem c10_fixed_tua_zero : forall wn n, (1 <= wn)%Z -> (0 <= n)%Z -> forall s lo now s1,
+  fw_wf wn n s lo -> (lo <= now)%Z -> fw_tua Qops wn n s now = (s1, 0%Z) ->
+  snd (fw_acquire wn n s now) = true /\ snd (fw_acquire wn n s1 now) = true.
+Proof. exact fw_tua_zero_acquires. Qed.
+Print Assumptions c10_fixed_tua_zero.
+
+Theorem c10_fixed_tua_blocks : forall wn n, (1 <= wn)%Z -> (0 <= n)%Z -> forall s lo now s1 w ops,
+  fw_wf wn n s lo -> (lo <= now)%Z -> fw_tua Qops wn n s now = (s1, w) -> (0 < w)%Z ->
+  Forall (fun o => (time_of o < now + w)%Z) ops ->
+  snd (run_count granted (fw_step Qops wn n) s1 ops) = 0%Z.
+Proof. exact fw_tua_positive_blocks. Qed.
+Print Assumptions c10_fixed_tua_blocks.
+
+Theorem c10_fixed_progress : forall wn n, (1 <= wn)%Z -> (0 <= n)%Z -> (1 <= n)%Z -> forall s lo now,
+  fw_wf wn n s lo -> (lo <= now)%Z ->
+  let '(s1, w1) := fw_tua Qops wn n s now in
+  let '(s2, w2) := fw_tua Qops wn n s1 (now + w1) in
+  w2 = 0%Z /\ (0 <= w1)%Z.
+Proof. exact fw_tua_progress. Qed.
+Print Assumptions c10_fixed_progress.
+
+(* ------------------------------------------------------------------ adaptive *)
+Theorem c10_adaptive_rate_bounds : forall p : adp Qops,
+  0 < ad_min p -> ad_min p <= ad_max p -> 0 <= ad_inc p -> 0 < ad_dec p /\ ad_dec p <= 1 ->
+  forall ops s, rate_ok p s -> rate_ok p (fst (run_count agranted (ad_step Qops p) s ops)).
+Proof. exact ad_rate_within_bounds. Qed.
+Print Assumptions c10_adaptive_rate_bounds.
+
+(** Bucket bound for the largest admissible rate: granted in any stretch <= max*window + max*(last - first). *)
+Theorem c10_adaptive_bound : forall p : adp Qops,
+  0 < ad_min p -> ad_min p <= ad_max p -> 0 <= ad_inc p -> 0 < ad_dec p /\ ad_dec p <= 1 -> 0 <= ad_win p ->
+  forall s0 pre mid, rate_ok p s0 -> ad_tokens s0 == ad_rate s0 * ad_win p -> ad_last s0 = None ->
+  asorted (pre ++ mid) ->
+  let s1 := fst (run_count agranted (ad_step Qops p) s0 pre) in
+  inject_Z (snd (run_count agranted (ad_step Qops p) s1 mid)) <=
+    ad_max p * ad_win p +
+    ad_max p * qsecs (match mid with [] => 0 | o :: r => alast_time (atime_of o) r - atime_of o end).
+Proof. exact ad_never_over_admits. Qed.
+Print Assumptions c10_adaptive_bound.
+
+Theorem c10_adaptive_tua_zero : forall (p : adp Qops) (s : ads Qops) now s1, 0 < ad_rate s ->
+  ad_tua Qops p s now = (s1, 0%Z) ->
+  snd (ad_acquire Qops p s now) = true /\ snd (ad_acquire Qops p s1 now) = true.
+Proof. exact ad_tua_zero_acquires. Qed.
+Print Assumptions c10_adaptive_tua_zero.
+
+(** (no feedback between the calls: [map ACall ops]) *)
+Theorem c10_adaptive_tua_blocks : forall (p : adp Qops) (s : ads Qops) now s1 w ops,
+  0 < ad_rate s -> 0 <= ad_win p -> tb_ready (tbs_of s) now -> ad_tua Qops p s now = (s1, w) -> (0 < w)%Z ->
+  nondecr now ops -> (last_time now ops < now + w)%Z ->
+  snd (run_count agranted (ad_step Qops p) s1 (map ACall ops)) = 0%Z.
+Proof. exact ad_tua_positive_blocks. Qed.
+Print Assumptions c10_adaptive_tua_blocks.
+
+Theorem c10_adaptive_progress : forall (p : adp Qops) (s : ads Qops) now,
+  0 < ad_rate s -> 1 <= ad_rate s * ad_win p -> tb_ready (tbs_of s) now ->
+  let '(s1, w1) := ad_tua Qops p s now in
+  let '(s2, w2) := ad_tua Qops p s1 (now + w1) in
+  let '(s3, w3) := ad_tua Qops p s2 (now + w1 + w2) in
+  w3 = 0%Z /\ (0 <= w1)%Z /\ (0 <= w2)%Z.
+Proof. exact ad_tua_progress. Qed.
+Print Assumptions c10_adaptive_progress.
